@@ -710,9 +710,14 @@ class Builder:
     documents as equivalent to one call with the conjunction.
     """
 
-    def __init__(self, root, tables=None, raw=False, split=False, rename=None):
+    def __init__(self, root, tables=None, raw=False, split=False, rename=None, order=None):
         from forml.io import dsl
         from forml.io.dsl import function
+
+        #: ``order`` (fluent only): seed of the permutation in which the clause methods of every query are called - the
+        #: builder methods replace one component each and carry the others forward, so any order denotes one statement
+        #: (only ``groupby`` has to follow ``select``: the grouping rule is checked against the selection at hand)
+        self.order = None if order is None else random.Random(order)
 
         self.dsl = dsl
         self.fn = function
@@ -775,19 +780,29 @@ class Builder:
                 [self.dsl.Ordering(self.feature(f), self.direction(d)) for f, d in orderby],
                 self.dsl.Rows(*rows) if rows is not None else None,
             )
-        result = source.query
+        steps = []
         if select:
-            result = result.select(*(self.feature(f, top=True) for f in select))
+            steps.append(('select', lambda q: q.select(*(self.feature(f, top=True) for f in select))))
         if where is not None:
-            result = self.filter(result, 'where', where)
+            steps.append(('where', lambda q: self.filter(q, 'where', where)))
         if groupby:
-            result = result.groupby(*(self.feature(f) for f in groupby))
+            steps.append(('groupby', lambda q: q.groupby(*(self.feature(f) for f in groupby))))
         if having is not None:
-            result = self.filter(result, 'having', having)
+            steps.append(('having', lambda q: self.filter(q, 'having', having)))
         if orderby:
-            result = result.orderby(*((self.feature(f), d) for f, d in orderby))
+            steps.append(('orderby', lambda q: q.orderby(*((self.feature(f), d) for f, d in orderby))))
         if rows is not None:
-            result = result.limit(*rows)
+            steps.append(('limit', lambda q: q.limit(*rows)))
+        if self.order is not None and len(steps) > 1:
+            self.order.shuffle(steps)
+            names = [n for n, _ in steps]
+            if 'groupby' in names and 'select' in names and names.index('groupby') < names.index('select'):
+                # the only dependency: grouping is validated against the selection it meets
+                i, j = names.index('groupby'), names.index('select')
+                steps[i], steps[j] = steps[j], steps[i]
+        result = source.query
+        for _, step in steps:
+            result = step(result)
         return result
 
     def filter(self, target, method, predicate):
@@ -932,10 +947,10 @@ def shared_names(ast):
     return {}
 
 
-def build(ast, tables=None, split=False, rename=None):
+def build(ast, tables=None, split=False, rename=None, order=None):
     """Real dsl object of a source or feature AST through the fluent API (python operators, ``.select`` ...)."""
     ast = norm(ast)
-    builder = Builder(ast, tables, raw=False, split=split, rename=rename)
+    builder = Builder(ast, tables, raw=False, split=split, rename=rename, order=order)
     return builder.source(ast) if is_source(ast) else builder.feature(ast)
 
 
